@@ -49,6 +49,9 @@ type procCase struct {
 	// StopFirst: Stop is called before the queue is closed (as concurrent.Map does), once every
 	// result has been taken; the workers still exit and the result channel is still closed
 	StopFirst bool `json:"stop_first,omitempty"`
+	// PanicFirst: the first submitted operation panics (only with two or more workers: a panic costs a
+	// worker). The other workers may not even have started when that worker leaves.
+	PanicFirst bool `json:"panic_first,omitempty"`
 	// WaitFirst: the result buffer holds every result (Buffer >= Ops) and the caller submits, closes
 	// the queue and waits for the workers before it collects anything
 	WaitFirst bool `json:"wait_first,omitempty"`
@@ -165,7 +168,7 @@ func runProc(c procCase) {
 		ops := make([]concurrent.Operator, c.Ops)
 		for i := range ops {
 			o := op{id: i, err: c.ErrEvery > 0 && i%c.ErrEvery == 0}
-			if c.PanicLast && i == c.Ops-1 {
+			if c.PanicLast && i == c.Ops-1 || c.PanicFirst && i == 0 {
 				o = op{id: i, panic: true}
 			}
 			ops[i] = o
@@ -420,6 +423,7 @@ func TestProcessor(t *testing.T) {
 				c.ErrEvery = rapid.IntRange(1, 5).Draw(t, "err-every")
 			}
 			c.PanicLast = c.Ops > 0 && rapid.IntRange(0, 3).Draw(t, "panic-last") == 0
+			c.PanicFirst = c.Ops >= 2 && c.Threads >= 2 && rapid.IntRange(0, 3).Draw(t, "panic-first") == 2
 			c.StopFirst = rapid.IntRange(0, 3).Draw(t, "stop-first") == 1
 			if !c.StopFirst && rapid.IntRange(0, 3).Draw(t, "wait-first") == 2 {
 				c.WaitFirst = true
@@ -443,6 +447,9 @@ func TestProcessor(t *testing.T) {
 			}
 			if c.PanicLast {
 				l = append(l, "last-operation-panics")
+			}
+			if c.PanicFirst {
+				l = append(l, "first-operation-panics")
 			}
 			if c.StopFirst {
 				l = append(l, "stop-before-close")
